@@ -166,7 +166,10 @@ struct Gen {
             case 2: p.add(where, reg ? "src_sgn" : "unsrc_sgn", {rmod(), bad ? -1 : (long)r.below(4), fl}); break;
             case 3: p.add(where, reg ? "src_path" : "unsrc_path", {rmod(), bad ? -1 : (long)r.below(PATH_POOL_N), fl}); break;
             case 4: p.add(where, reg ? "src_pid" : "unsrc_pid", {rmod(), bad ? -1 : (long)r.below(4), fl}); break;
-            case 5: p.add(where, reg || r.chance(0.7) ? "src_task" : "unsrc_task", {rmod(), (long)r.below(4), (long)r.below(5) * (long)r.below(2000), (long)r.below(100), fl, bad ? 1 : 0}); break;
+            case 5:
+                // avoid(known finding: task thread vs module stop): outside C04 no task is launched from a stop callback (the module goes away under it)
+                if (camp != "C04" && where.find(".stop.") != std::string::npos) { p.add(where, "src_sgn", {rmod(), (long)r.below(4), fl}); break; }
+                p.add(where, reg || r.chance(0.7) ? "src_task" : "unsrc_task", {rmod(), (long)r.below(4), (long)r.below(5) * (long)r.below(2000), (long)r.below(100), fl, bad ? 1 : 0}); break;
             case 6: p.add(where, reg ? "src_thresh" : "unsrc_thresh", {rmod(), bad ? 0 : (long)r.range(1, 3) * 5, bad ? 0 : (long)r.below(2) * 400000, fl}); break;
             }
             break;
